@@ -181,6 +181,8 @@ impl ReadBufPool {
         // Get a ring_buf we write into.
         // NOTE: that we allocated at least as many `io_uring_buf`s as we
         // did buffer, so there is always a slot available for us.
+        #[cfg(a10_verif)]
+        crate::verif::sched_point(crate::verif::LOAD_BUF_TAIL, ring_tail.as_ptr().addr());
         let tail = ring_tail.load(Ordering::Acquire);
         let ring_idx = tail & self.tail_mask;
         let ring_buf = unsafe {
@@ -211,6 +213,8 @@ impl ReadBufPool {
         );
         // NOTE: poising the buffer again, unpoisoned in ReadBufPool::init_buffer.
         asan::poison_region(ptr.as_ptr().cast(), self.buf_size());
+        #[cfg(a10_verif)]
+        crate::verif::sched_point(crate::verif::STORE_BUF_TAIL, ring_tail.as_ptr().addr());
         ring_tail.store(tail.wrapping_add(1), Ordering::Release);
         unlock(guard);
     }
